@@ -526,6 +526,19 @@ class HTMLBinaryInputStream(HTMLUnicodeInputStream):
             self.reset()
             raise _ReparseException("Encoding changed from %s to %s" % (self.charEncoding[0], newEncoding))
 
+    def _readPrefix(self, numBytes):
+        """Read numBytes bytes from the raw stream (fewer only at EOF):
+        a single read() may legitimately return less than was asked for"""
+        data = []
+        while numBytes > 0:
+            piece = self.rawStream.read(numBytes)
+            assert isinstance(piece, bytes)
+            if not piece:
+                break
+            data.append(piece)
+            numBytes -= len(piece)
+        return b"".join(data)
+
     def detectBOM(self):
         """Attempts to detect at BOM at the start of the stream. If
         an encoding can be determined from the BOM return the name of the
@@ -537,8 +550,7 @@ class HTMLBinaryInputStream(HTMLUnicodeInputStream):
         }
 
         # Go to beginning of file and read in 4 bytes
-        string = self.rawStream.read(4)
-        assert isinstance(string, bytes)
+        string = self._readPrefix(4)
 
         # Try detecting the BOM using bytes from the string
         encoding = bomDict.get(string[:3])         # UTF-8
@@ -563,8 +575,7 @@ class HTMLBinaryInputStream(HTMLUnicodeInputStream):
     def detectEncodingMeta(self):
         """Report the encoding declared by the meta element
         """
-        buffer = self.rawStream.read(self.numBytesMeta)
-        assert isinstance(buffer, bytes)
+        buffer = self._readPrefix(self.numBytesMeta)
         parser = EncodingParser(buffer)
         self.rawStream.seek(0)
         encoding = parser.getEncoding()
